@@ -37,7 +37,8 @@ ASSUMPTIONS = ["the document's own prose defines no id attributes or '#...' link
 RULE = ("Markdown documents with 1-3 independent recipes (```new-recipe) of 1-3 blocks each; sub recipes with single and "
         "multiple outputs, adversarial output names (spaces, punctuation, quotes, < > &, non-ASCII, names made only of "
         "punctuation, embedded scaled numbers {n}, pairs that sanitise to the same id), references with every amount "
-        "form, across blocks, names of 50-80 characters sharing their first 40+; rendered at scales 1, 2, 1/3, 0.5, "
+        "form, across blocks, documents in which a later block of the same recipe re-defines an output name (must be "
+        "rejected, otherwise rendered and checked), names of 50-80 characters sharing their first 40+; rendered at scales 1, 2, 1/3, 0.5, "
         "2.5 and, for names holding scaled numbers, at numerically equal scales of different type one after the other "
         "in the same process (1.5 then 3/2, 1/2 then 0.5, ...); ids/hrefs extracted with html.parser. "
         "Non-trivial = at least one link; distinct = distinct (document, scale)")
@@ -131,6 +132,25 @@ def gen_doc(rng: random.Random) -> str:
     return "\n".join(parts)
 
 
+def gen_redefine_doc(rng: random.Random) -> str:
+    """One recipe over 2-3 blocks in which a LATER block defines an output name that an earlier block already
+    defined (and references it).  The compiler must reject such a document (NameRedefinedError: trivially fine); a
+    compiler that accepts it is rendered and the uniqueness of link targets is checked."""
+    nm = quote(rand_name(rng)) if rng.random() < 0.5 else rng.choice(["sauce", "dough", "a b"])
+    other = quote(rand_name(rng))
+    b1 = [f"{nm} := do(ing1)", f"mix(1/2 of the {nm}, ing2)"]
+    if rng.random() < 0.5:
+        b1.insert(0, f"{other}, \"spare\" := split(ing0)")
+    mid = [f"fry(rest of the {nm}, ing3)"] if rng.random() < 0.5 else [f"boil(ing3)"]
+    if rng.random() < 0.5:
+        b3 = [f"{nm} := again(ing4)"]
+    else:
+        b3 = [f"{nm}, \"extra\" := split(ing4)"]
+    b3 += [f"top(1/2 of the {nm}, ing5)", f"serve(rest of the {nm})"]
+    blocks = [b1, mid, b3] if rng.random() < 0.6 else [b1, b3]
+    return "# Title for 2\n\n" + "\nprose\n\n".join("```recipe\n" + "\n".join(b) + "\n```\n" for b in blocks)
+
+
 HAND_DOCS = [
     # F8 collision (each sub recipe is used twice so that it is not inlined)
     "```recipe\n\"a b\" := x\n\"a-b\" := y\nmix(1/2 of the a b, 1/2 of the a-b)\nfry(rest of the a b, rest of the a-b)\n```\n",
@@ -204,7 +224,8 @@ def element_positions(tokens) -> List[Tuple[str, Tuple[int, Optional[int]]]]:
     return out
 
 
-def oracle(scaled: List[List[Any]], html_ids, hrefs, tokens) -> Tuple[Optional[str], Dict[str, Any]]:
+def oracle(scaled: List[List[Any]], html_ids, hrefs, tokens, unscaled: Optional[List[List[Any]]] = None
+           ) -> Tuple[Optional[str], Dict[str, Any]]:
     """Every '#...' href has exactly one element with that id and it is the defining table / list item."""
     import recipe_grid.recipe as R
     elems = element_positions(tokens)
@@ -232,6 +253,16 @@ def oracle(scaled: List[List[Any]], html_ids, hrefs, tokens) -> Tuple[Optional[s
                     for j, nm in enumerate(tree.output_names):
                         names_at[(tno, None if len(tree.output_names) == 1 else j)] = str(nm)
                 tno += 1
+    # the names as WRITTEN (unscaled), by position
+    src_at: Dict[Tuple[int, Optional[int]], str] = {}
+    k = 0
+    for rs in (unscaled or []):
+        for r in rs:
+            for tree in r.recipe_trees:
+                if isinstance(tree, R.SubRecipe):
+                    for j, nm in enumerate(tree.output_names):
+                        src_at[(k, None if len(tree.output_names) == 1 else j)] = str(nm)
+                k += 1
     info: Dict[str, Any] = {"duplicates": [], "other": []}
     if len(expected) != len(hrefs):
         info["other"].append(f"{len(hrefs)} links for {len(expected)} reference cells")
@@ -248,6 +279,9 @@ def oracle(scaled: List[List[Any]], html_ids, hrefs, tokens) -> Tuple[Optional[s
             others = [names_at.get(p, "?") for p in found if p != pos]
             info["duplicates"].append({"id": h[1:], "name": name, "others": others,
                                        "same_sanitised": all(sanitised(o) == sanitised(name) for o in others),
+                                       # F8 is about DIFFERENT names as written; the same name defined twice is not F8
+                                       "written_names_differ": bool(src_at) and all(
+                                           src_at.get(p) != src_at.get(pos) for p in found if p != pos),
                                        "same_recipe": all(recipe_of.get(p[0]) == recipe_of.get(pos[0]) for p in found),
                                        "distinct_outputs": len(set(found)) == len(found)})
     if info["other"]:
@@ -279,7 +313,7 @@ def ids_case(inp: Dict[str, Any]) -> Optional[Case]:
     html = m.render(scale)
     ids, hrefs, tokens = extract(html)
     scaled = [[r.scale(scale) for r in rs] for rs in m.recipes]
-    viol, info = oracle(scaled, ids, hrefs, tokens)
+    viol, info = oracle(scaled, ids, hrefs, tokens, m.recipes)
     page = coqio.lst([ser.blocks(rs) for rs in scaled], "(list (list node))")
     out = coqio.pair(coqio.lst([coqio.pair(coqio.string(i), coqio.string(t)) for i, t in ids], "(str * str)"),
                      coqio.lst([coqio.string(h) for h in hrefs], "str"))
@@ -306,6 +340,7 @@ def suites(tier: str, seed: int) -> List[Suite]:
     rng = random.Random(seed * 32452843 + 9)
     ndocs = 120 if tier == "quick" else 1500
     docs = list(HAND_DOCS) + [gen_doc(rng) for _ in range(ndocs)]
+    docs += [gen_redefine_doc(rng) for _ in range(20 if tier == "quick" else 200)]
     seen = set()
     for d in docs:
         for sc in ([1, 2, Fraction(1, 3)] if d in HAND_DOCS else rng.sample(SCALES, 2)):
@@ -345,4 +380,4 @@ def known_match(finding: Any, case: Case) -> bool:
     # ... and only when the DOCUMENTED sanitisation of the colliding names (every character outside [A-Za-z0-9._-]
     # becomes '-', then strip('-')) is the same string: any other way of getting equal ids is not F8
     return all(d["others"] and d.get("same_recipe") and d.get("distinct_outputs") and d.get("same_sanitised")
-               for d in info["duplicates"])
+               and d.get("written_names_differ") for d in info["duplicates"])
